@@ -44,9 +44,9 @@ pub fn take_last_panic() -> String {
 /// with digits removed (so that differing indexes do not make differing signatures).
 pub fn panic_site(record: &str) -> String {
   let mut s = record.to_string();
-  if let Some(pos) = s.find("/target/repo-copy/") {
+  if let Some(pos) = s.find("target/repo-copy/") {
     // the mirror of the repository the simulator is built from
-    s = s[pos + "/target/repo-copy/".len()..].to_string();
+    s = s[pos + "target/repo-copy/".len()..].to_string();
   }
   for root in [std::env::var("VERIF_REPO").unwrap_or_else(|_| "/repo".to_string()), "/repo".to_string()] {
     s = s.replace(&format!("{}/", root), "");
@@ -90,6 +90,12 @@ pub fn outcome_from_json(v: &Value) -> Outcome {
     log_tail: parr(v, "log_tail").iter().filter_map(|x| x.as_str().map(|s| s.to_string())).collect(),
     harness_error: v.get("harness_error").and_then(|x| x.as_str()).map(|s| s.to_string()),
   }
+}
+
+/// Progress marker of the running case ("what is being attempted now"); when the process dies the
+/// parent knows the last one.
+pub fn mark(text: &str) {
+  emit(&format!("at {}", text));
 }
 
 fn emit(line: &str) {
@@ -226,7 +232,8 @@ struct ChildReport {
   end: ChildEnd,
   /// Run that was started and not finished when the child ended abnormally.
   current: Option<u64>,
-  lines: Vec<(String, String)>,
+  /// Last progress marker of that run.
+  marker: Option<String>,
 }
 
 /// Spawns a child with the given arguments and TZ; collects protocol lines; enforces the watchdog
@@ -240,7 +247,7 @@ fn run_child(args: &[String], tz: &str, watchdog: Duration, mut on_line: impl Fn
       return ChildReport {
         end: ChildEnd::Died(format!("spawn failed: {}", e)),
         current: None,
-        lines: vec![],
+        marker: None,
       }
     }
   };
@@ -268,6 +275,7 @@ fn run_child(args: &[String], tz: &str, watchdog: Duration, mut on_line: impl Fn
     }
   });
   let mut current: Option<u64> = None;
+  let mut marker: Option<String> = None;
   let mut clean = false;
   let mut hung = false;
   loop {
@@ -278,7 +286,14 @@ fn run_child(args: &[String], tz: &str, watchdog: Duration, mut on_line: impl Fn
           None => (line.as_str(), ""),
         };
         match kind {
-          "start" => current = rest.trim().parse::<u64>().ok(),
+          "start" => {
+            current = rest.trim().parse::<u64>().ok();
+            marker = None;
+          }
+          "at" => {
+            marker = Some(rest.to_string());
+            continue;
+          }
           "end" => {
             clean = true;
           }
@@ -316,7 +331,7 @@ fn run_child(args: &[String], tz: &str, watchdog: Duration, mut on_line: impl Fn
     };
     ChildEnd::Died(how)
   };
-  ChildReport { end, current, lines: vec![] }
+  ChildReport { end, current, marker }
 }
 
 /// Result of one block.
@@ -331,14 +346,18 @@ struct BlockResult {
   harness_errors: Vec<String>,
 }
 
-fn death_violation(sim: &dyn Sim, how: &str, hang: bool) -> Violation {
+fn death_violation(sim: &dyn Sim, plan: &Value, how: &str, hang: bool, marker: Option<&str>) -> Violation {
   let rule = if hang { "hang" } else { "process-death" };
   Violation::new(
     rule,
-    format!("{}:{}:{}", sim.id(), rule, how),
+    sim.death_signature(plan, how, hang, marker).unwrap_or_else(|| format!("{}:{}:{}", sim.id(), rule, how)),
     0,
     "the run finishes and the process survives",
-    if hang { format!("no progress within the watchdog of {} ms", sim.watchdog_ms()) } else { format!("child process ended with {}", how) },
+    if hang {
+      format!("no progress within the watchdog of {} ms (last marker: {})", sim.watchdog_ms(), marker.unwrap_or("none"))
+    } else {
+      format!("child process ended with {} (last marker: {})", how, marker.unwrap_or("none"))
+    },
   )
 }
 
@@ -421,10 +440,15 @@ fn run_block(sim: &dyn Sim, tier: Tier, seed: u64, from: u64, to: u64, tz: &str,
       }
     };
     if seen_viol.insert(run) {
-      let mut o = Outcome::default();
-      o.violation = Some(death_violation(sim, &how, hang));
-      result.violations.push((run, o));
-      result.counters.inc(if hang { "crash.hang" } else { "crash.process_death" });
+      let plan = sim.gen_plan(seed, run, tier);
+      if hang && sim.hang_is_inconclusive(&plan) {
+        result.counters.inc("inconclusive.watchdog_expiry_under_storage_fault");
+      } else {
+        let mut o = Outcome::default();
+        o.violation = Some(death_violation(sim, &plan, &how, hang, report.marker.as_deref()));
+        result.violations.push((run, o));
+        result.counters.inc(if hang { "crash.hang" } else { "crash.process_death" });
+      }
       result.runs += 1;
     }
     skip.insert(run);
@@ -477,13 +501,16 @@ pub fn exec_isolated(sim: &dyn Sim, doc: &Value, mode: &str, reseeds: u64, tz: &
       if report.current.is_none() {
         o.harness_error = Some(format!("exec-plan child ended before starting: {} {}", how, herr.unwrap_or_default()));
       } else {
-        o.violation = Some(death_violation(sim, &how, false));
+        o.violation = Some(death_violation(sim, doc.get("plan").unwrap_or(&Value::Null), &how, false, report.marker.as_deref()));
       }
       o
     }
     ChildEnd::Hung => {
       let mut o = Outcome::default();
-      o.violation = Some(death_violation(sim, "watchdog", true));
+      let plan = doc.get("plan").cloned().unwrap_or(Value::Null);
+      if !sim.hang_is_inconclusive(&plan) {
+        o.violation = Some(death_violation(sim, &plan, "watchdog", true, report.marker.as_deref()));
+      }
       o
     }
   }
@@ -856,7 +883,8 @@ pub fn run_check(sim: &'static dyn Sim, opt: &BatchOptions) -> i32 {
       coverage["extra_pass"] = json!({"name": extra.name, "counters": extra.counters.to_json(), "note": extra.note, "violations": extra.violations.len()});
     }
     if sim.level() == "fault_enumeration" {
-      coverage["exhaustive"] = json!(summary.counters.get("enumeration.complete") > 0 && summary.blocks_skipped_by_wall_cap == 0);
+      // the thorough tier enumerates every single structural fault of the stated kinds (the seeded parts are sampling)
+      coverage["exhaustive"] = json!(opt.tier == Tier::Thorough && opt.runs_override.is_none() && summary.blocks_skipped_by_wall_cap == 0 && summary.harness_errors.is_empty());
     }
     let evidence = json!({
       "property_id": sim.id(),
